@@ -178,6 +178,15 @@ def r02_1(ctx):
                     if not (sm and sm.group(1) == "VALUE" and sm.end() == len(m.group(2))):
                         ctx.bad(construct, f"quoted value {m.group(2)} is not accepted by _conf_string_match", f.loc(r))
                         continue
+                # the value may be empty: a visible int/hex/float option without a value is written as `CONFIG_X=`, an
+                # empty string as `CONFIG_S=""` - the reader must take those lines too (otherwise the line is "malformed"
+                # and the pending `# default:` marker moves on to the next entry)
+                empty = render(r, dict(slots, **{"val": "", "_escape(val)": ""}))
+                em = set_re.match(empty.rstrip("\n")) if empty is not None else None
+                if not (em and em.group(1) == "NAME" and em.group(2) in ("", '""')):
+                    ctx.bad(construct, f"with an empty value the emitted line `{(empty or '').rstrip()}` is not read back by _set_match "
+                            f"({pats['_set_match']!r}): a valueless number / empty string entry becomes a malformed line", f.loc(r))
+                    continue
                 ctx.ok(construct, f.loc(r), read_by="_set_match", sample=line)
             elif u and u.group(1) == "NAME" and u.end() == len(line):
                 ctx.ok(construct, f.loc(r), read_by="_unset_match", sample=line)
@@ -546,6 +555,14 @@ def r02_12(ctx):
     delegate(ctx, c03.r03_1, lambda c: c.startswith("Symbol/"))
     delegate(ctx, c11.r11_1, lambda c: c.endswith(": guard") or "sites agree" in c)
 
+def r02_13(ctx):
+    """R02.13 every entry that is read is applied: the deferred assignments to choice members are applied for every choice, also when
+    all of them are n (C05 R05.9) - an explicit `n` that is read but not applied comes back default-marked in the second write."""
+    from . import c05
+    from .common import delegate
+    delegate(ctx, c05.r05_9, lambda c: "deferred member assignments" in c)
+
+
 def rules():
-    return [("R02.12", r02_12, 8), ("R02.11", r02_11, 3), ("R02.1", r02_1, 8), ("R02.2", r02_2, 8), ("R02.3", r02_3, 9), ("R02.4", r02_4, 3), ("R02.5", r02_5, 5),
+    return [("R02.13", r02_13, 1), ("R02.12", r02_12, 8), ("R02.11", r02_11, 3), ("R02.1", r02_1, 8), ("R02.2", r02_2, 8), ("R02.3", r02_3, 9), ("R02.4", r02_4, 3), ("R02.5", r02_5, 5),
             ("R02.6", r02_6, 3), ("R02.7", r02_7, 3), ("R02.8", r02_8, 2), ("R02.9", r02_9, 6), ("R02.10", r02_10, 3)]
